@@ -200,14 +200,35 @@ pub fn install_panic_hook() {
         let bt = std::backtrace::Backtrace::force_capture().to_string();
         let mut origin = "unknown";
         for line in bt.lines() {
-            if line.contains("librqbit_utp::") {
+            let l = line.trim_start();
+            if let Some(path) = l.strip_prefix("at ") {
+                // source location of the frame above (present whenever line tables are)
+                if path.starts_with("/repo/") {
+                    origin = "lib";
+                    break;
+                }
+                if path.starts_with("/verif/harness/src/") && !path.starts_with("/verif/harness/src/engine/") {
+                    origin = "harness";
+                    break;
+                }
+                continue;
+            }
+            // "<n>: <function path><generic args>": look at the function's own path only (generic arguments of
+            // library functions name harness types)
+            let name = l.split_once(": ").map(|x| x.1).unwrap_or(l);
+            let name = name.trim_start_matches('<');
+            let own = name.split('<').next().unwrap_or(name);
+            if own.starts_with("librqbit_utp::") {
                 origin = "lib";
                 break;
             }
-            if line.contains("utpverif::") && !line.contains("utpverif::engine") {
+            if own.starts_with("utpverif::") && !own.starts_with("utpverif::engine") {
                 origin = "harness";
                 break;
             }
+        }
+        if std::env::var("UTPVERIF_PANIC_BT").is_ok() {
+            eprintln!("[panic backtrace]\n{bt}");
         }
         PANICS.with(|p| p.borrow_mut().push(format!("{msg} @ {loc} [origin:{origin}]")));
     }));
